@@ -261,10 +261,14 @@ Section Props.
       [|apply in_app_or in H; destruct H as [H | H];
         [|apply in_app_or in H; destruct H as [H | H];
           [|apply in_app_or in H; destruct H as [H | H];
-            [|apply in_app_or in H; destruct H as [H | H]]]]].
+            [|apply in_app_or in H; destruct H as [H | H];
+              [|apply in_app_or in H; destruct H as [H | H]]]]]].
     - destruct (sp_oscore_drop cfg req); [|contradiction]. destruct H as [<- | []]. apply nil_ok.
     - destruct (sp_long_token req); [|contradiction]. apply (reject_ok _ Hc H).
     - destruct (mc && (ty =? NR_CON)); [|contradiction]. destruct H as [<- | []]. apply nil_ok.
+    - destruct (sp_async cfg req); [|contradiction]. destruct H as [<- | H]; [apply nil_ok|].
+      destruct (ty =? NR_CON) eqn:E0; [|contradiction]. destruct H as [<- | []].
+      apply eack_ok. unfold NR_CON in *. lia.
     - destruct ((ty =? NR_NON) && sp_bad_options cfg req); [|contradiction]. apply (reject_ok _ Hc H).
     - apply in_flat_map in H as [e [_ H]].
       destruct (sp_applies cfg mc req e); [|contradiction].
@@ -324,9 +328,9 @@ Section Props.
     intros Hb out. unfold dp_allowed, dp_allowed_outs. fold ty code.
     rewrite conn_b, Hcls, not_resp, Hreq. cbn [negb].
     unfold sp_blocked in Hb. fold ty in Hb.
-    apply orb_false_iff in Hb as [Hb Herr]. apply orb_false_iff in Hb as [Hb Hmc].
-    apply orb_false_iff in Hb as [Hos Hlt].
-    rewrite Hos, Hlt, Hmc.
+    apply orb_false_iff in Hb as [Hb Herr]. apply orb_false_iff in Hb as [Hb Has].
+    apply orb_false_iff in Hb as [Hb Hmc]. apply orb_false_iff in Hb as [Hos Hlt].
+    rewrite Hos, Hlt, Hmc, Has.
     assert (Hbad : (ty =? NR_NON) && sp_bad_options cfg req = false).
     { unfold dp_all_errs in Herr. cbn [existsb] in Herr. apply orb_false_iff in Herr as [H402 _].
       cbn [sp_applies] in H402. apply orb_false_iff in H402 as [H402 _].
@@ -338,7 +342,7 @@ Section Props.
       repeat (apply orb_false_iff in Herr; destruct Herr as [?H Herr]).
       cbn [flat_map]. repeat match goal with H : sp_applies _ _ _ _ = false |- _ => rewrite H; clear H end.
       reflexivity. }
-    rewrite Hfm. unfold sp_blocked. fold ty. rewrite Hos, Hlt, Hmc, Herr. cbn [app orb].
+    rewrite Hfm. unfold sp_blocked. fold ty. rewrite Hos, Hlt, Hmc, Has, Herr. cbn [app orb].
     tauto.
   Qed.
 
@@ -360,10 +364,13 @@ Section Props.
     apply in_app_or in H; destruct H as [H | H];
       [|apply in_app_or in H; destruct H as [H | H];
         [|apply in_app_or in H; destruct H as [H | H];
-          [|apply in_app_or in H; destruct H as [H | H]]]].
+          [|apply in_app_or in H; destruct H as [H | H];
+            [|apply in_app_or in H; destruct H as [H | H]]]]].
     - destruct (sp_oscore_drop cfg req); [|contradiction]. destruct H as [<- | []]. reflexivity.
     - destruct (sp_long_token req); [|contradiction]. apply (reject_calls _ H).
     - destruct (mc && (ty =? NR_CON)); [|contradiction]. destruct H as [<- | []]. reflexivity.
+    - destruct (sp_async cfg req); [|contradiction]. destruct H as [<- | H]; [reflexivity|].
+      destruct (ty =? NR_CON); [|contradiction]. destruct H as [<- | []]. reflexivity.
     - destruct ((ty =? NR_NON) && sp_bad_options cfg req); [|contradiction]. apply (reject_calls _ H).
     - apply in_flat_map in H as [e [_ H]].
       destruct (sp_applies cfg mc req e); [|contradiction].
@@ -383,12 +390,13 @@ Section Props.
     sp_applies cfg mc req e = true ->
     (forall e', e' <> e -> sp_applies cfg mc req e' = false) ->
     sp_oscore_drop cfg req = false -> sp_long_token req = false -> mc && (ty =? NR_CON) = false ->
+    sp_async cfg req = false ->
     forall out, dp_allowed cfg h mc req out ->
       In out (sp_emit cfg mc req e) \/
       (e = E402 /\ ty = NR_NON /\ sp_bad_options cfg req = true /\ In out (sp_reject mc req)).
   Proof.
-    intros e He Hothers Hos Hlt Hmc out. unfold dp_allowed, dp_allowed_outs. fold ty code.
-    rewrite conn_b, Hcls, not_resp, Hreq. cbn [negb]. rewrite Hos, Hlt, Hmc. cbn [app].
+    intros e He Hothers Hos Hlt Hmc Has out. unfold dp_allowed, dp_allowed_outs. fold ty code.
+    rewrite conn_b, Hcls, not_resp, Hreq. cbn [negb]. rewrite Hos, Hlt, Hmc, Has. cbn [app].
     assert (Hb : sp_blocked cfg mc req = true).
     { unfold sp_blocked. apply orb_true_iff. right. apply existsb_exists. exists e.
       split; [destruct e; cbn; tauto|exact He]. }
@@ -703,7 +711,7 @@ Qed.
 Definition ex_handler (_ : dp_hreq) : dp_hresp := mkHresp 69 [(12, [0])] [104; 105].
 Definition ex_cfg : dp_cfg :=
   mkCfg true [] [mkRes [97] 1 8 true; mkRes [98] 3 0 false] (Some (4, 0)) None (fun _ => [60; 47; 97; 62])
-        dp_unescaped_path dp_unescaped_query.
+        dp_unescaped_path dp_unescaped_query [].
 Definition ex_get (ty : Z) (path : bytes) (extra : list opt) : msg :=
   mkMsg ty 1 4660 [170; 187] ((11, path) :: extra) [].
 
@@ -748,7 +756,7 @@ Example ex_rules :
   dp_serve ex_cfg ex_handler false (mkMsg 0 2 1 [] [(5, []); (11, [98])] []) =
     [EvTx true (mkMsg 2 140 1 [] [] [])] /\
   (* FETCH without Content-Format (a FETCH handler exists on /f) *)
-  dp_serve (mkCfg false [] [mkRes [102] 16 0 false] None None (fun _ => []) dp_unescaped_path dp_unescaped_query) ex_handler false
+  dp_serve (mkCfg false [] [mkRes [102] 16 0 false] None None (fun _ => []) dp_unescaped_path dp_unescaped_query []) ex_handler false
            (mkMsg 0 5 1 [] [(11, [102])] []) = [EvTx true (mkMsg 2 143 1 [] [] [])] /\
   (* proxy option without proxy support *)
   dp_serve ex_cfg ex_handler false (mkMsg 0 1 1 [] [(3, [104]); (11, [97]); (39, [99])] []) =
@@ -777,12 +785,12 @@ Theorem single_error_reply : forall cfg h mc req,
   forall e, e <> E402 -> sp_applies cfg mc req e = true ->
   (forall e', e' <> e -> sp_applies cfg mc req e' = false) ->
   sp_oscore_drop cfg req = false -> sp_long_token req = false ->
-  mc && (m_type req =? NR_CON) = false ->
+  mc && (m_type req =? NR_CON) = false -> sp_async cfg req = false ->
   forall out, dp_allowed cfg h mc req out ->
   out = dp_fail cfg mc req (sp_rflags cfg req e) (dp_err_code e).
 Proof.
-  intros cfg h mc req Hty Hc Hb Hq e Hne He Ho Hos Hlt Hmc out Ha.
-  destruct (single_error_decides cfg h mc req Hty Hc Hb Hq e He Ho Hos Hlt Hmc out Ha) as [H | [H _]];
+  intros cfg h mc req Hty Hc Hb Hq e Hne He Ho Hos Hlt Hmc Has out Ha.
+  destruct (single_error_decides cfg h mc req Hty Hc Hb Hq e He Ho Hos Hlt Hmc Has out Ha) as [H | [H _]];
     [|contradiction].
   destruct e; try contradiction; cbn [sp_emit] in H; destruct H as [<- | []]; reflexivity.
 Qed.
@@ -796,14 +804,14 @@ Theorem bad_option_reply : forall cfg h mc req,
   sp_applies cfg mc req E402 = true ->
   (forall e', e' <> E402 -> sp_applies cfg mc req e' = false) ->
   sp_oscore_drop cfg req = false -> sp_long_token req = false ->
-  mc && (m_type req =? NR_CON) = false ->
+  mc && (m_type req =? NR_CON) = false -> sp_async cfg req = false ->
   forall out, dp_allowed cfg h mc req out ->
   (m_type req = NR_CON /\ out = [sp_err402_direct cfg req]) \/
   (exists rf, out = dp_fail cfg mc req rf 130) \/
   (m_type req = NR_NON /\ sp_bad_options cfg req = true /\ In out (sp_reject mc req)).
 Proof.
-  intros cfg h mc req Hty Hc Hb Hq He Ho Hos Hlt Hmc out Ha.
-  destruct (single_error_decides cfg h mc req Hty Hc Hb Hq E402 He Ho Hos Hlt Hmc out Ha)
+  intros cfg h mc req Hty Hc Hb Hq He Ho Hos Hlt Hmc Has out Ha.
+  destruct (single_error_decides cfg h mc req Hty Hc Hb Hq E402 He Ho Hos Hlt Hmc Has out Ha)
     as [H | [_ [H1 [H2 H3]]]]; [|right; right; auto].
   cbn [sp_emit] in H. apply in_app_or in H as [H | H].
   - destruct (m_type req =? NR_CON) eqn:E; [|contradiction]. destruct H as [<- | []].
@@ -881,10 +889,14 @@ Proof.
     [|apply in_app_or in Ha; destruct Ha as [Ha | Ha];
       [|apply in_app_or in Ha; destruct Ha as [Ha | Ha];
         [|apply in_app_or in Ha; destruct Ha as [Ha | Ha];
-          [|apply in_app_or in Ha; destruct Ha as [Ha | Ha]]]]].
+          [|apply in_app_or in Ha; destruct Ha as [Ha | Ha];
+            [|apply in_app_or in Ha; destruct Ha as [Ha | Ha]]]]]].
   - destruct (sp_oscore_drop cfg req); [|contradiction]. destruct Ha as [<- | []]. contradiction.
   - destruct (sp_long_token req); [|contradiction]. rewrite (Hrej _ Ha) in Hin. contradiction.
   - destruct (true && (m_type req =? NR_CON)); [|contradiction]. destruct Ha as [<- | []]. contradiction.
+  - destruct (sp_async cfg req); [|contradiction]. destruct Ha as [<- | Ha]; [contradiction|].
+    destruct (m_type req =? NR_CON); [|contradiction]. destruct Ha as [<- | []].
+    destruct Hin as [<- | []]. cbn in Hrst. unfold NR_ACK, NR_RST in Hrst. discriminate.
   - destruct ((m_type req =? NR_NON) && sp_bad_options cfg req); [|contradiction].
     rewrite (Hrej _ Ha) in Hin. contradiction.
   - apply in_flat_map in Ha as [e [_ Ha]].
@@ -1065,3 +1077,44 @@ Proof.
   destruct Hmain as [H1 H2]. split; [exact H1|]. split; [exact H2|].
   unfold dp_uri_path, dp_query. rewrite !H2 by discriminate. auto.
 Qed.
+
+(* ---- the look-up key keeps the segment structure: when the tables never copy the separator
+        unescaped (what the check demands of the library's tables), an escaped Uri-Path option
+        contains no '/' and an escaped Uri-Query option no '&' - a '/' inside ONE option can
+        not make the request hit a multi-segment resource ---- *)
+Definition dp_tables_ok (cfg : dp_cfg) : Prop :=
+  c_unesc_path cfg 47 = false /\ c_unesc_path cfg 37 = false /\
+  c_unesc_query cfg 38 = false /\ c_unesc_query cfg 37 = false.
+
+Lemma escape_no_separator : forall unesc sep seg,
+  wfb seg -> unesc sep = false -> sep = 47 \/ sep = 38 -> ~ In sep (dp_escape unesc seg).
+Proof.
+  intros unesc sep seg Hw Hu Hs. unfold dp_escape. intros Hin.
+  apply in_flat_map in Hin as [c [Hc Hin]].
+  assert (Hb : 0 <= c < 256). { unfold wfb in Hw. rewrite Forall_forall in Hw. apply Hw. exact Hc. }
+  destruct (unesc c) eqn:E.
+  - destruct Hin as [<- | []]. congruence.
+  - unfold dp_hexdigit in Hin. cbn [In] in Hin.
+    destruct (c / 16 <? 10) eqn:E1; destruct (c mod 16 <? 10) eqn:E2; lia.
+Qed.
+
+Theorem one_option_no_separator : forall cfg seg,
+  dp_tables_ok cfg -> wfb seg ->
+  ~ In 47 (dp_uri_path cfg [(DP_URI_PATH, seg)]) /\ ~ In 38 (dp_query cfg [(DP_URI_QUERY, seg)]).
+Proof.
+  intros cfg seg [H1 [_ [H3 _]]] Hw. unfold dp_uri_path, dp_query, dp_values.
+  cbn [filter fst snd map dp_join]. change (DP_URI_PATH =? DP_URI_PATH) with true.
+  change (DP_URI_QUERY =? DP_URI_QUERY) with true. cbn [filter fst snd map dp_join].
+  split; apply escape_no_separator; auto.
+Qed.
+
+(* ---- a pending separate response: the repetition of the request is absorbed ---- *)
+Example ex_async_absorbed :
+  let cfg := mkCfg false [] [mkRes [97] 1 0 false] None None (fun _ => [])
+                   dp_unescaped_path dp_unescaped_query [[49]] in
+  dp_tables_ok cfg /\
+  dp_serve cfg ex_handler false (mkMsg 1 1 7 [49] [(11, [97])] []) = [] /\
+  dp_serve cfg ex_handler false (mkMsg 0 1 7 [49] [(11, [97])] []) = [EvTx false (dp_empty 2 7)] /\
+  dp_allowed_outs cfg ex_handler false (mkMsg 1 1 7 [49] [(11, [97])] []) = [[]] /\
+  dp_calls (dp_serve cfg ex_handler false (mkMsg 1 1 7 [50] [(11, [97])] [])) <> [].
+Proof. cbv zeta. vm_compute. repeat split; discriminate. Qed.
